@@ -500,6 +500,9 @@ def build_inputs(ctx, rng, n_arb, n_mal, n_frames_edit, thorough):
             items.append(("edit:%s" % op, e))
             if op == "del" or pos >= len(f) - 8:
                 items.append(("edit:%s+next" % op, e + nxt))
+            if pos >= len(f) - 9:
+                # the next frame has only partly arrived (marker, but not yet an SOH)
+                items.append(("edit:%s+partial-next" % op, e + nxt[:9]))
     return items, frames
 
 
@@ -660,6 +663,9 @@ def oracle(ctx, disagreements, broken):
         for (op, pos, y), e in gen_edits(f, False):
             todo.append(("edit", e))
             todo.append(("edit+next", e + nxt))
+            if pos >= len(f) - 9:
+                todo.append(("edit+next", e + nxt[:9]))
+                todo.append(("edit+next", e + nxt[:6]))
     seen = set()
     for lab, raw in todo:
         if raw in seen:
